@@ -1072,14 +1072,19 @@ func (b *broker) subEventHistory(msg *wamp.Invocation) wamp.Message {
 		}
 	}
 
-	limit, ok = msg.ArgumentsKw["limit"].(int)
-	if ok && limit < 1 {
-		return &wamp.Error{
-			Type:    msg.MessageType(),
-			Request: msg.Request,
-			Details: wamp.Dict{},
-			Error:   wamp.ErrInvalidArgument,
+	if limitOp, ok := msg.ArgumentsKw["limit"]; ok {
+		// The limit arrives as int, int64, uint64 or float64 depending on the
+		// transport and serializer of the caller.
+		limit64, ok := wamp.AsInt64(limitOp)
+		if !ok || limit64 < 1 {
+			return &wamp.Error{
+				Type:    msg.MessageType(),
+				Request: msg.Request,
+				Details: wamp.Dict{},
+				Error:   wamp.ErrInvalidArgument,
+			}
 		}
+		limit = int(limit64)
 	}
 
 	reverseOp, ok := msg.ArgumentsKw["reverse"]
@@ -1147,15 +1152,15 @@ func (b *broker) subEventHistory(msg *wamp.Invocation) wamp.Message {
 		}
 	}
 
-	topicStr, ok = msg.ArgumentsKw["topic"].(string)
+	topicStr, ok = wamp.AsString(msg.ArgumentsKw["topic"])
 	if ok {
 		topicUri = wamp.URI(topicStr)
 	}
 
 	fromPubOp, ok := msg.ArgumentsKw["from_publication"]
 	if ok {
-		fromPub, ok = fromPubOp.(wamp.ID)
-		if !ok || fromPub < 1 {
+		fromPub, ok = wamp.AsID(fromPubOp)
+		if !ok {
 			return &wamp.Error{
 				Type:    msg.MessageType(),
 				Request: msg.Request,
@@ -1168,8 +1173,8 @@ func (b *broker) subEventHistory(msg *wamp.Invocation) wamp.Message {
 
 	afterPubOp, ok := msg.ArgumentsKw["after_publication"]
 	if ok {
-		afterPub, ok = afterPubOp.(wamp.ID)
-		if !ok || afterPub < 1 {
+		afterPub, ok = wamp.AsID(afterPubOp)
+		if !ok {
 			return &wamp.Error{
 				Type:    msg.MessageType(),
 				Request: msg.Request,
@@ -1181,8 +1186,8 @@ func (b *broker) subEventHistory(msg *wamp.Invocation) wamp.Message {
 
 	beforePubOp, ok := msg.ArgumentsKw["before_publication"]
 	if ok {
-		beforePub, ok = beforePubOp.(wamp.ID)
-		if !ok || beforePub < 1 {
+		beforePub, ok = wamp.AsID(beforePubOp)
+		if !ok {
 			return &wamp.Error{
 				Type:    msg.MessageType(),
 				Request: msg.Request,
@@ -1194,8 +1199,8 @@ func (b *broker) subEventHistory(msg *wamp.Invocation) wamp.Message {
 
 	untilPubOp, ok := msg.ArgumentsKw["until_publication"]
 	if ok {
-		untilPub, ok = untilPubOp.(wamp.ID)
-		if !ok || untilPub < 1 {
+		untilPub, ok = wamp.AsID(untilPubOp)
+		if !ok {
 			return &wamp.Error{
 				Type:    msg.MessageType(),
 				Request: msg.Request,
